@@ -12,6 +12,14 @@
 // The rounds are macro-expanded straight-line code: there is no helper to replace inside the block functions,
 // so the block-function contracts compare the real code with the reference directly.
 //
+// STATUS.  Equivalence over symbolic lookups in the 256 x 32-bit S-boxes is expensive for every solver tried: one
+// round function (four lookups per side) takes ~500 s with CaDiCaL.  The contracts of the block functions
+// (c_cast5_enc_state / c_cast5_dec_state: 64 lookups per side) and of schedule::key_schedule (c_cast5_schedule_fn:
+// 160 lookups per side) were written but NOT discharged within the session; they are kept as `@candidate`
+// (ignored by the ledger) and the obligations that compose over them say so in `uses=`.  What IS discharged for
+// conformance: the tables, the three round functions (thorough), the RFC's appendix B.1 vectors through the
+// real constructor and block functions (x_cast5_rfc_vectors), and all the composition / plumbing obligations.
+//
 // @module file=cast5/src/lib.rs
 // @config name=zeroize features=zeroize
 use super::*;
@@ -58,20 +66,45 @@ fn x_cast5_sboxes() {
     }
 }
 
+// RFC 2144 appendix B.1 through the real code (concrete execution inside the verifier): 128-, 80- and 40-bit key
+// @ob name=x_cast5_rfc_vectors props=C09,C20 kind=bounded bound="the three RFC 2144 B.1 vectors, both directions (concrete inputs)" fn=cast5::Cast5::new_from_slice,cast5::Cast5::key_schedule,cast5::schedule::key_schedule,cast5::Cast5::encrypt_block,cast5::Cast5::decrypt_block timeout=900
+#[kani::proof]
+#[kani::unwind(18)]
+fn x_cast5_rfc_vectors() {
+    let key: [u8; 16] = [0x01, 0x23, 0x45, 0x67, 0x12, 0x34, 0x56, 0x78, 0x23, 0x45, 0x67, 0x89, 0x34, 0x56, 0x78, 0x9A];
+    let pt: [u8; 8] = [0x01, 0x23, 0x45, 0x67, 0x89, 0xAB, 0xCD, 0xEF];
+    let lens: [usize; 3] = [16, 10, 5];
+    let cts: [u64; 3] = [0x238B4FE5847E44B2, 0xEB6A711A2C02271B, 0x7AC816D16E9B302E];
+    let mut t = 0;
+    while t < 3 {
+        let c = Cast5::new_from_slice(&key[..lens[t]]).unwrap();
+        let (km, kr) = bcref::cast5::key_schedule(&bcref::cast5::pad_key(&key[..lens[t]]));
+        assert!(eq16w(&c.masking, &km) && eq16b(&c.rotate, &kr));
+        let mut blk = Array(pt);
+        cipher::BlockCipherEncrypt::encrypt_block(&c, &mut blk);
+        assert!(u64::from_be_bytes(blk.0) == cts[t]);
+        assert!(blk.0 == bcref::cast5::encrypt(&key[..lens[t]], &pt));
+        cipher::BlockCipherDecrypt::decrypt_block(&c, &mut blk);
+        assert!(blk.0 == pt);
+        t += 1;
+    }
+}
+
 // ---------------------------------------------------------------- round functions (macros of lib.rs)
-// @ob name=c_cast5_f1 props=C09,C20 fn=cast5::f1 timeout=600
+// (four lookups in 256 x 32-bit tables on each side: 494 s with CaDiCaL)
+// @ob name=c_cast5_f1 props=C09,C20 tier=thorough fn=cast5::f1 timeout=1800
 #[kani::proof]
 fn c_cast5_f1() {
     let (d, m, r): (u32, u32, u8) = (kani::any(), kani::any(), kani::any());
     assert!(f1!(d, m, r) == bcref::cast5::f1(d, m, r));
 }
-// @ob name=c_cast5_f2 props=C09,C20 fn=cast5::f2 timeout=600
+// @ob name=c_cast5_f2 props=C09,C20 tier=thorough fn=cast5::f2 timeout=1800
 #[kani::proof]
 fn c_cast5_f2() {
     let (d, m, r): (u32, u32, u8) = (kani::any(), kani::any(), kani::any());
     assert!(f2!(d, m, r) == bcref::cast5::f2(d, m, r));
 }
-// @ob name=c_cast5_f3 props=C09,C20 fn=cast5::f3 timeout=600
+// @ob name=c_cast5_f3 props=C09,C20 tier=thorough fn=cast5::f3 timeout=1800
 #[kani::proof]
 fn c_cast5_f3() {
     let (d, m, r): (u32, u32, u8) = (kani::any(), kani::any(), kani::any());
@@ -119,7 +152,8 @@ pub fn spec_key_schedule(x: &mut [u32], _z: &mut [u32], k: &mut [u32]) {
 }
 
 // the long straight-line function against the RFC's byte-indexed description, every x
-// @ob name=c_cast5_schedule_fn props=C09,C20 tier=thorough fn=cast5::schedule::key_schedule timeout=3600
+// (NOT discharged in the contributing session -- see the note at the top of this file: not registered)
+// @candidate name=c_cast5_schedule_fn props=C09,C20 tier=thorough fn=cast5::schedule::key_schedule timeout=3600
 #[kani::proof]
 #[kani::unwind(18)]
 fn c_cast5_schedule_fn() {
@@ -240,7 +274,8 @@ pub fn spec_dec_block(c: &Cast5, mut block: InOut<'_, '_, Block<Cast5>>) {
     *block.get_out() = Array(bcref::cast5::decrypt_with(&c.masking, &c.rotate, rounds(c), &b));
 }
 
-// @ob name=c_cast5_enc_state props=C09,C20 fn=cast5::Cast5::encrypt_block,cast5::f1,cast5::f2,cast5::f3 timeout=900
+// (NOT discharged in the contributing session -- see the note at the top of this file: not registered)
+// @candidate name=c_cast5_enc_state props=C09,C20 fn=cast5::Cast5::encrypt_block,cast5::f1,cast5::f2,cast5::f3 timeout=900
 #[kani::proof]
 #[kani::unwind(18)]
 fn c_cast5_enc_state() {
@@ -251,7 +286,8 @@ fn c_cast5_enc_state() {
     let r = bcref::cast5::encrypt_with(&c.masking, &c.rotate, rounds(&c), &b);
     assert!(u64::from_be_bytes(blk.0) == u64::from_be_bytes(r));
 }
-// @ob name=c_cast5_dec_state props=C09,C20 fn=cast5::Cast5::decrypt_block,cast5::f1,cast5::f2,cast5::f3 timeout=900
+// (NOT discharged in the contributing session -- see the note at the top of this file: not registered)
+// @candidate name=c_cast5_dec_state props=C09,C20 fn=cast5::Cast5::decrypt_block,cast5::f1,cast5::f2,cast5::f3 timeout=900
 #[kani::proof]
 #[kani::unwind(18)]
 fn c_cast5_dec_state() {
@@ -321,24 +357,29 @@ fn c_cast5_bytes_api() {
 }
 
 // ---------------------------------------------------------------- C01 round trip
-/// uninterpreted round function (round type, D, Km, Kr) -> u32 standing for bcref::cast5::f
+/// uninterpreted round function (round, D, Km, Kr) -> u32 standing for bcref::cast5::f; rows are kept in 16 slots by
+/// the (concrete) round number, so a call only looks at earlier calls of the same round (fewer consistency
+/// constraints than hold: still a sound abstraction)
 pub mod uff {
-    pub const MAXC: usize = 66;
-    pub static mut A: [(usize, u32, u32, u8); MAXC] = [(0, 0, 0, 0); MAXC];
-    pub static mut R: [u32; MAXC] = [0; MAXC];
-    pub static mut N: usize = 0;
+    pub const SLOTS: usize = 17;
+    pub const PER: usize = 4;
+    pub static mut A: [[(u32, u32, u8); PER]; SLOTS] = [[(0, 0, 0); PER]; SLOTS];
+    pub static mut R: [[u32; PER]; SLOTS] = [[0; PER]; SLOTS];
+    pub static mut CNT: [usize; SLOTS] = [0; SLOTS];
     #[allow(static_mut_refs)]
     pub fn f(round: usize, d: u32, km: u32, kr: u8) -> u32 {
         unsafe {
+            assert!(1 <= round && round <= 16);
+            let s = round;
             let mut y: u32 = kani::any();
             let mut found = false;
             let mut c = 0;
-            while c < N {
-                if !found && A[c].0 % 3 == round % 3 && A[c].1 == d && A[c].2 == km && A[c].3 == kr { y = R[c]; found = true; }
+            while c < CNT[s] {
+                if !found && A[s][c].0 == d && A[s][c].1 == km && A[s][c].2 == kr { y = R[s][c]; found = true; }
                 c += 1;
             }
-            assert!(N < MAXC);
-            A[N] = (round, d, km, kr); R[N] = y; N += 1;
+            assert!(CNT[s] < PER);
+            A[s][CNT[s]] = (d, km, kr); R[s][CNT[s]] = y; CNT[s] += 1;
             y
         }
     }
@@ -350,7 +391,7 @@ pub mod uff {
 #[kani::stub(<Cast5 as BlockCipherEncBackend>::encrypt_block, spec_enc_block)]
 #[kani::stub(<Cast5 as BlockCipherDecBackend>::decrypt_block, spec_dec_block)]
 #[kani::stub(bcref::cast5::f, uff::f)]
-#[kani::unwind(67)]
+#[kani::unwind(18)]
 fn l_cast5_roundtrip() {
     let c = any_cast5();
     let b: [u8; 8] = kani::any();
@@ -363,7 +404,8 @@ fn l_cast5_roundtrip() {
     assert!(blk.0 == b);
 }
 // the same on the real code with nothing replaced
-// @ob name=l_cast5_mono_roundtrip props=C01 kind=lemma tier=thorough fn=cast5::Cast5::encrypt_block,cast5::Cast5::decrypt_block timeout=3600
+// (NOT discharged in the contributing session -- see the note at the top of this file: not registered)
+// @candidate name=l_cast5_mono_roundtrip props=C01 kind=lemma tier=thorough fn=cast5::Cast5::encrypt_block,cast5::Cast5::decrypt_block timeout=3600
 #[kani::proof]
 #[kani::unwind(18)]
 fn l_cast5_mono_roundtrip() {
@@ -443,3 +485,4 @@ multi_block!(#[kani::stub(<Cast5 as BlockCipherDecBackend>::decrypt_block, uf_bl
 // @ob name=m_cast5_dec_blocks_3 props=C04,C15 kind=bounded bound="n = 3 blocks" fn=cast5::Cast5::decrypt_with_backend uses=c_cast5_dec_state timeout=300
 multi_block!(#[kani::stub(<Cast5 as BlockCipherDecBackend>::decrypt_block, uf_block)] #[kani::unwind(30)]
     m_cast5_dec_blocks_3, 3, any_cast5(), snap, eqsnap, BlockCipherDecrypt, decrypt_block, decrypt_blocks, decrypt_blocks_b2b);
+
